@@ -3,6 +3,7 @@ package props
 import (
 	"fmt"
 	"reflect"
+	"sort"
 	"strings"
 
 	"go.flow.arcalot.io/pluginsdk/schema"
@@ -165,6 +166,81 @@ func c12Aliased(c *wk.Ctx) {
 	}
 }
 
+// c12KeyKinds: maps whose keys are equal numbers of different Go integer types (int(1) beside int64(1)): the
+// operations that normalise keys must give the same answer every time (reject, or always keep the same entry).
+func c12KeyKinds(c *wk.Ctx) {
+	str := func() schema.Type { return schema.NewStringSchema(nil, nil, nil) }
+	schemas := map[string]func() schema.Type{
+		"any":         func() schema.Type { return schema.NewAnySchema() },
+		"list[any]":   func() schema.Type { return schema.NewListSchema(schema.NewAnySchema(), nil, nil) },
+		"map[int]str": func() schema.Type { return schema.NewMapSchema(schema.NewIntSchema(nil, nil, nil), str(), nil, nil) },
+		"map[str]any": func() schema.Type { return schema.NewMapSchema(str(), schema.NewAnySchema(), nil, nil) },
+		"object{a:any}": func() schema.Type {
+			return schema.NewObjectSchema("O", map[string]*schema.PropertySchema{"a": schema.NewPropertySchema(schema.NewAnySchema(), nil, false, nil, nil, nil, nil, nil)})
+		},
+	}
+	twins := []map[any]any{
+		{int(1): "a", int64(1): "b"},
+		{int32(7): "a", int64(7): "b", int8(7): "c"},
+		{uint8(2): "a", int64(2): "b"},
+		{uint64(3): "a", int(3): "b"},
+	}
+	names := make([]string, 0, len(schemas))
+	for n := range schemas {
+		names = append(names, n)
+	}
+	sort.Strings(names)
+	for _, name := range names {
+		for ti, twin := range twins {
+			var arg any = twin
+			switch name {
+			case "list[any]":
+				arg = []any{twin}
+			case "map[str]any":
+				arg = map[string]any{"k": twin}
+			case "object{a:any}":
+				arg = map[string]any{"a": twin}
+			}
+			for _, op := range []string{"Unserialize", "Validate", "Serialize"} {
+				outcomes := map[string]int{}
+				t := schemas[name]()
+				for rep := 0; rep < 120; rep++ {
+					if rep%3 == 0 {
+						t = schemas[name]()
+					}
+					var out any
+					var err error
+					in := cmpx.DeepCopy(arg)
+					if p, site, msg, _ := wk.Guard(func() {
+						switch op {
+						case "Unserialize":
+							out, err = t.Unserialize(in)
+						case "Validate":
+							err = t.Validate(in)
+						default:
+							out, err = t.Serialize(in)
+						}
+					}); p {
+						c.Violation("C12:panic:"+op+":"+site, fmt.Sprintf("%s on %s panicked on keys of mixed integer types: %s", op, name, msg), map[string]any{"schema": name, "argument": fmt.Sprintf("%#v", arg)})
+						break
+					}
+					c.Count("probe_evaluations")
+					o := "ok " + cmpx.Canon(out)
+					if err != nil {
+						o = "rejected"
+					}
+					outcomes[o]++
+				}
+				c.Eval(wk.Hash64("directed-key-kinds", name, fmt.Sprint(ti), op), true)
+				if len(outcomes) > 1 {
+					c.Violation("C12:not-deterministic:"+op, fmt.Sprintf("120 evaluations of %s on %s with the same argument (a map whose keys are the same number as different Go integer types) disagree: %v", op, name, outcomes),
+						map[string]any{"schema": name, "argument": fmt.Sprintf("%#v", arg), "outcomes": outcomes})
+				}
+			}
+		}
+	}
+}
+
 func runC12(c *wk.Ctx) {
 	c.Meta("rule", "per case: one generated shape built twice (a 'used' and a 'fresh' instance, each with its own self / twin / incompatible-mutant schema arguments); a probe set (valid inputs in random representations, perturbed and hostile inputs for Unserialize; natives for Validate/Serialize; data and schema arguments for ValidateCompatibility) is first evaluated on the fresh instance. The used instance then goes through a random history of 1..30 calls (accepted, rejected and default-filling ones, failing schema comparisons), with a deep snapshot of every argument before and after, and with every container reachable from every returned value overwritten in place. Afterwards each probe is evaluated 16 times on the used instance. Oracle: the argument snapshot is unchanged by the call and by scrambling the result; all 16 evaluations agree; they equal the fresh instance's outcome; SelfSerialize of the used scope equals that of the fresh one. distinct = hash(shape, history); non-trivial = history length >= 2")
 	c.Meta("assumptions", []string{"GetDefaults() is deliberately not compared (the SDK extends decoded sub-object defaults in place, which changes that accessor but neither the self-description nor behaviour)",
@@ -175,6 +251,10 @@ func runC12(c *wk.Ctx) {
 	if c.Mine(0) {
 		c.Begin(0, "directed: one member object under two one-of keys")
 		c12Aliased(c)
+	}
+	if c.Mine(1) {
+		c.Begin(1, "directed: equal keys of different Go integer types")
+		c12KeyKinds(c)
 	}
 	n := c.N(6000, 600000)
 	c.Cases(n, func(idx int64, r *wk.Rand) {
